@@ -385,9 +385,37 @@ def clean_tree(xml: str):
     return D.lxml_tree_json(root)
 
 
+def union_documents(rng, tier, n_uni, per_uni):
+    """documents of universes whose Root has element fields typed as a union of model classes, with nested
+    attributed children (UnionNode records the events and replays them for every candidate class)"""
+    for _ in range(n_uni):
+        desc, build = D.union_universe(rng)
+        try:
+            u = B.Universe(desc)
+            ctx = u.export_ctx()
+        except Exception:  # noqa: BLE001
+            continue
+        _UNIS[u.modname] = u
+        for _ in range(per_uni):
+            try:
+                xml = G.real_serialize(u, build(u, rng), writer=rng.choice(["native", "lxml"]))
+                tree = G.xml_tree(xml.encode())
+            except Exception:  # noqa: BLE001
+                continue
+            yield u, ctx, desc, tree, "valid"
+            if rng.random() < 0.5:
+                kind, t2 = G.mutate_tree(rng, tree)
+                yield u, ctx, desc, t2, kind
+
+
+def all_documents(rng, tier):
+    yield from union_documents(rng, tier, n_cases(tier, 20, 150), 3)
+    yield from documents(rng, tier, n_cases(tier, 60, 450), 3, mutate=True)
+
+
 def gen_handlers(rng, tier, for_corr=False):
     fresh_registry()
-    for u, ctx, desc, tree, kind in documents(rng, tier, n_cases(tier, 60, 450), 3, mutate=True):
+    for u, ctx, desc, tree, kind in all_documents(rng, tier):
         lay = rng.random()
         try:
             d = D.plain_dtree(tree) if lay < 0.3 else D.layout(rng, tree, allow_default=default_ok(desc, tree))
@@ -572,6 +600,37 @@ def adapt_lxml_text(op, a):
             "noise": [], "kind": "valid", "desc": None}
 
 
+# ------------------------------------------------------------------ UnionNode under the lxml handler
+def gen_union_record(rng, tier):
+    """nested elements with attributes below a union element: all shapes of up to 3 elements, then random"""
+    names = ["a", "b", "start", "stop"]
+    ats = [[], [["x", "1"]], [["x", "1"], ["y", "a b"]], [["k", ""]]]
+
+    def leaf(i, j):
+        return {"q": names[i % len(names)], "a": [list(kv) for kv in ats[j]], "c": []}
+
+    for j in range(len(ats)):
+        for k in range(len(ats)):
+            yield {"tree": {"c": [leaf(0, j)]}}
+            yield {"tree": {"c": [leaf(0, j), leaf(1, k)]}}
+            yield {"tree": {"c": [{**leaf(2, j), "c": [leaf(1, k)]}]}}
+            yield {"tree": {"c": [{**leaf(2, j), "c": [leaf(1, k), leaf(0, j)]}, leaf(3, k)]}}
+
+    def rand(depth):
+        n = {"q": rng.choice(names), "a": [list(kv) for kv in rng.choice(ats)], "c": []}
+        if depth < 3:
+            n["c"] = [rand(depth + 1) for _ in range(rng.choice([0, 0, 1, 2]))]
+        return n
+
+    for _ in range(n_cases(tier, 150, 3000)):
+        yield {"tree": {"c": [rand(0) for _ in range(rng.randint(0, 3))]}}
+
+
+
+def impl_union_record(a):
+    return D.real_union_record(a["tree"])
+
+
 ORACLES = [
     Oracle("writers_agree", gen_writers_oracle, oracle_writers, covered=covered_writers,
            from_ops=("c08.native_tree", "c08.lxml_tree", "c08.tree_serializer", "c08.lxml_writer")),
@@ -601,6 +660,10 @@ CORRS = [
          describe="XmlParser x {native, lxml} x {bytes, str, path, file, lxml tree/element, ET tree/element} on documents with "
                   "random declaration layouts and lexical variation: all equal and equal to the model's parse of the infoset; "
                   "RecordParser event streams of both handlers equal"),
+    Corr("c08.union_record", lambda rng, tier: ({"toks": D.union_tokens(a["tree"]), **a} for a in gen_union_record(rng, tier)),
+         impl_union_record,
+         describe="a real UnionNode fed by the lxml handler's loop (live element.attrib views, element.clear() at every end) "
+                  "vs model unionRecord: the recorded start events keep the document's attributes"),
     Corr("c08.lxml_text", gen_lxml_text, impl_lxml_text, classify=classify_lxml_text,
          describe="get_text / get_tail of the lxml handler on the tree libxml2 builds (comments and PIs as nodes, or comments "
                   "dropped as by iterparse) vs model view + joinTails; all content sequences up to 4 items, then random nested"),
